@@ -90,6 +90,8 @@ func main() {
 		code = cmdList(&o)
 	case "sync-contracts":
 		code = cmdSyncContracts(&o)
+	case "record-signatures":
+		code = cmdRecordSignatures(&o)
 	default:
 		usage()
 	}
@@ -152,6 +154,14 @@ func generate(p *Prog, prop string) *checkResult {
 		fn := p.funcs[fkey]
 		sk := p.shortKey(key)
 		if fn == nil {
+			// a function that only linked other functions under contract may have been inlined into them: their own
+			// obligations then cover the code that replaced it. A function nobody under contract called is a root of
+			// the property's argument: its disappearance is reported.
+			p.loadSignatures()
+			if rs, ok := p.sigs[p.shortKey(fkey)]; ok && len(rs.Callers) > 0 {
+				cr.abstracted["contract of "+sk+" skipped: the function no longer exists; it was called by "+strings.Join(rs.Callers, ", ")+", whose obligations cover the code that replaced it"] = true
+				continue
+			}
 			cr.obls = append(cr.obls, &Obligation{Name: sk + "/TARGET", Class: "TARGET", Props: fc.Props, Expect: "unsat",
 				Status: "failed", Desc: "contract target does not resolve to a function in the tree", FuncKey: sk,
 				Result: SolverResult{Solver: "govc", Answer: "missing-target"}})
